@@ -77,6 +77,11 @@ def cfg_bin(tier, seed):
                 for ends in ('symmetric', 'inside'):
                     for pp in (True, False):
                         out.append({'grid': grid, 'centres': centres, 'method': method, 'ends': ends, 'preserve': pp})
+    # centres handed over as a list of Python ints (an integer-typed array inside bin), odd spacing: the mid-points are half-integers
+    for centres in ([505, 510], [505, 510, 515]):
+        for method in ('trapz', 'simps'):
+            for ends in ('symmetric', 'inside'):
+                out.append({'grid': 'u5', 'centres': centres, 'method': method, 'ends': ends, 'preserve': False, 'ctype': 'int'})
     return out, len(out), True
 
 
@@ -85,12 +90,14 @@ def run_bin(W, cfg):
     grid = GR[cfg['grid']]
     n = len(grid)
     ctr = cfg['centres']
+    as_arg = (lambda: [int(c) for c in ctr]) if cfg.get('ctype') == 'int' else \
+        (lambda: W.array([W.const(Fraction(c)) for c in ctr]) if W.sym else [float(c) for c in ctr])
     s, v = _spec(W, R, 's', grid, 'v', nonneg=True)
     v0 = list(v)
     if cfg['preserve']:
         W.assume(W.sum(v) > 0)
     try:
-        bins = s.bin(W.array([W.const(Fraction(c)) for c in ctr]) if W.sym else [float(c) for c in ctr], interp_method=cfg['method'], ends=cfg['ends'], preserve_power=cfg['preserve'])
+        bins = s.bin(as_arg(), interp_method=cfg['method'], ends=cfg['ends'], preserve_power=cfg['preserve'])
     except ZeroDivisionError:
         return            # all bins zero: the property only speaks of power preservation when the bins carry power
     W.ob_true('one value per centre', len(bins) == len(ctr))
@@ -103,7 +110,7 @@ def run_bin(W, cfg):
         # exact for a spectrum that is linear across each bin: an affine spectrum v = p + q*w
         p, q = W.real('p'), W.real('q')
         aff = R.Spectrum(s.wave, W.array([p + q * g for g in grid]))
-        b2 = aff.bin(W.array([W.const(Fraction(c)) for c in ctr]) if W.sym else [float(c) for c in ctr], interp_method=cfg['method'], ends=cfg['ends'], preserve_power=False)
+        b2 = aff.bin(as_arg(), interp_method=cfg['method'], ends=cfg['ends'], preserve_power=False)
         half = [Fraction(ctr[k + 1] - ctr[k], 2) for k in range(len(ctr) - 1)]
         edges = [ctr[0] - half[0] if cfg['ends'] == 'symmetric' else Fraction(ctr[0])] + [ctr[k] + half[k] for k in range(len(half))] + [ctr[-1] + half[-1] if cfg['ends'] == 'symmetric' else Fraction(ctr[-1])]
         if edges[0] >= grid[0] and edges[-1] <= grid[-1]:
